@@ -67,6 +67,22 @@ def ref_split(data, newline):
     return out, tail
 
 
+def ref_split_fast(data, newline):
+    """Same scanner with bytes.find for the search step (equal to ref_split
+    because the next non-overlapping occurrence at or after the cursor is
+    the leftmost one; asserted on every small-scope case)."""
+    out = []
+    start = 0
+    n = len(newline)
+    while True:
+        i = data.find(newline, start)
+        if i < 0:
+            break
+        out.append(data[start:i + n])
+        start = i + n
+    return out, data[start:]
+
+
 def check_one(data, newline):
     """Returns (violations, nontrivial)."""
     v = []
@@ -75,7 +91,12 @@ def check_one(data, newline):
         bare = split_lines(data, newline, keep_ends=False)
     except Exception as e:
         return [('exception:%s' % type(e).__name__, repr(e))], False
-    terminated, tail = ref_split(data, newline)
+    if len(data) > 200000:
+        terminated, tail = ref_split_fast(data, newline)
+    else:
+        terminated, tail = ref_split(data, newline)
+        if len(data) < 32:
+            assert ref_split_fast(data, newline) == (terminated, tail)
     occ = len(terminated)
     n = len(newline)
     if not isinstance(keep, list) or not isinstance(bare, list) or \
@@ -112,7 +133,14 @@ def check_one(data, newline):
     # independent oracle: equals the reference scanner outright
     ref = terminated + ([tail] if tail else [])
     if keep != ref:
-        v.append(('ref-scanner', 'keep=%r ref=%r' % (keep, ref)))
+        if len(data) > 5000:
+            bad = next((i for i, (a, b) in enumerate(zip(keep, ref))
+                        if a != b), min(len(keep), len(ref)))
+            v.append(('ref-scanner', 'first differing line %d of %d/%d at '
+                      'offset %d' % (bad, len(keep), len(ref),
+                                     sum(len(x) for x in ref[:bad]))))
+        else:
+            v.append(('ref-scanner', 'keep=%r ref=%r' % (keep, ref)))
     return v, occ > 0
 
 
@@ -130,6 +158,8 @@ def plan(tier):
                     units.append((si, ni, (a, b)))
     for ni in range(len(NEWLINES)):
         units.append(('scale', ni, None))
+        for period in PERIODS:
+            units.append(('periodic', ni, period, tier != 'quick'))
     return {
         'units': units,
         'scopes': scopes,
@@ -137,7 +167,10 @@ def plan(tier):
                 '(LF, CRLF in ASCII, UTF-16-LE/BE, UTF-32-LE/BE) x '
                 'keep_ends in {False, True}; a case (string, newline) is '
                 'non-trivial when the string contains >= 1 occurrence of the '
-                'newline; each case distinct by construction'
+                'newline; each case distinct by construction. Plus inputs of '
+                '1023..65537 bytes at buffer boundaries and inputs of 2 MiB '
+                '(thorough 9 MiB) in which the newline straddles every '
+                'multiple of 4096 / 1000 / 4099 at every offset k'
                 % ', '.join('{%s} up to length %d'
                             % (' '.join(repr(x)[2:-1] for x in a), m)
                             for a, m in scopes),
@@ -159,6 +192,8 @@ def _scopes(tier):
 def run_unit(unit, tier):
     if unit[0] == 'scale':
         return run_scale_unit(unit[1])
+    if unit[0] == 'periodic':
+        return run_periodic_unit(*unit[1:])
     si, ni, prefix = unit
     alpha, maxlen = _scopes(tier)[si]
     name, newline = NEWLINES[ni]
@@ -234,6 +269,45 @@ def scale_data():
     return out
 
 
+# A multi-megabyte input with the newline straddling EVERY multiple of a
+# period (k bytes before it): whatever window / chunk size an implementation
+# works in, if it is a multiple of 4096 or of 1000 (or 4099: a prime, for
+# windows that are not), some newline straddles its edge.
+PERIODS = [4096, 1000, 4099]
+
+
+def periodic_data(nlb, period, k, total):
+    n = len(nlb)
+    gap = period - n
+    unit = nlb + b'p' * gap            # newline at offsets j*period - k
+    lead = b'q' * (period - k)
+    reps = (total - len(lead)) // period
+    return lead + unit * reps + b'end'
+
+
+def run_periodic_unit(ni, period, thorough):
+    acc = Acc()
+    name, nlb = NEWLINES[ni]
+    total = (9 << 20) if thorough else (2 << 20) + 5000
+    for k in range(0, len(nlb) + 1):
+        data = periodic_data(nlb, period, k, total)
+        viols, nt = check_one(data, nlb)
+        acc.evals += 1
+        acc.states += 1
+        acc.transitions += 2
+        acc.validated += 1
+        acc.nontrivial += 1
+        for key, msg in viols:
+            acc.violation('%s:%s:periodic' % (key, name.split('/')[0]),
+                          msg[:300], {'kind': 'periodic', 'ni': ni,
+                                      'period': period, 'k': k,
+                                      'total': total})
+        acc.outcome('ok-periodic' if not viols else 'violation')
+    acc.sample({'periodic': '%d bytes, %s every %d bytes' % (total, name,
+                                                            period)}, 1)
+    return acc
+
+
 def run_scale_unit(ni):
     acc = Acc()
     for i, (name, data) in enumerate(scale_data()):
@@ -255,6 +329,13 @@ def run_scale_unit(ni):
 
 
 def replay(payload):
+    if payload.get('kind') == 'periodic':
+        name, nlb = NEWLINES[payload['ni']]
+        data = periodic_data(nlb, payload['period'], payload['k'],
+                             payload['total'])
+        viols, nt = check_one(data, nlb)
+        return [{'key': '%s:%s:periodic' % (k, name.split('/')[0]),
+                 'msg': m[:300]} for k, m in viols]
     if payload.get('kind') == 'scale':
         name, data = scale_data()[payload['index']]
         viols, nt = check_one(data, dict(NEWLINES)[name])
